@@ -341,6 +341,24 @@ pub fn generate(kind: &str, tier: &str, seed: u64, shard: u64, nshards: u64, pat
                 }
                 t.emit(&enc_event(&vec![]));
                 t.emit(&enc_event(&vec![Amf0Value::StrictArray(vec![Amf0Value::Null; 400])]));
+                // what FAILED decodes leave behind on this thread must not matter: 300 truncated / too deep / garbage inputs first
+                for i in 0..300usize {
+                    let mut junk: Vec<u8> = Vec::new();
+                    for _ in 0..(1 + i % 120) { junk.extend_from_slice(if i % 2 == 0 { &[3, 0, 1, b'a'] } else { &[10, 0, 0, 0, 1] }); }
+                    if i % 3 == 0 { junk.push(0xFF); }
+                    let _ = lib_decode(&junk);
+                    let _ = catch_unwind(AssertUnwindSafe(|| serialize(&vec![Amf0Value::Number(1.0), Amf0Value::Utf8String("q".repeat(65536 + i))])));
+                }
+                // property names and strings of every length class 2^k - 1, 2^k, 2^k + 1
+                for k in 1..=10u32 {
+                    for d in [-1i64, 0, 1].iter() {
+                        let l = ((1i64 << k) + d) as usize;
+                        let mut p = HashMap::new();
+                        p.insert("n".repeat(l), Amf0Value::Utf8String("s".repeat(l)));
+                        p.insert(format!("{}{}", "m".repeat(l), "\u{e9}"), Amf0Value::Number(l as f64));
+                        t.emit(&enc_event(&vec![Amf0Value::Object(p), Amf0Value::Utf8String("t".repeat(l + 1))]));
+                    }
+                }
                 // arrays around powers of two (a count is a number like any other: nothing may be capped or truncated)
                 for n in [255usize, 256, 257, 1024, 1025].iter() {
                     t.emit(&enc_event(&vec![Amf0Value::StrictArray(vec![Amf0Value::Boolean(true); *n]), Amf0Value::Number(1.0)]));
@@ -441,6 +459,37 @@ pub fn generate(kind: &str, tier: &str, seed: u64, shard: u64, nshards: u64, pat
                     for v in &intent2 { rv_enc(v, &mut bytes2); }
                     t.emit(&dec_event("conf", &bytes2, &intent2));
                     cases += 2;
+                }
+                // every unsupported marker at every kind of value position, followed by plenty of well-formed bytes
+                for m in UNSUPPORTED.iter() {
+                    let tail: Vec<u8> = { let mut x = vec![0u8; 24]; x.extend_from_slice(&[0, 1, b'z', 5, 0, 0, 9]); x };
+                    let mut cases_b: Vec<Vec<u8>> = Vec::new();
+                    cases_b.push({ let mut b = vec![*m]; b.extend(&tail); b });
+                    cases_b.push({ let mut b = vec![5, *m]; b.extend(&tail); b });
+                    cases_b.push({ let mut b = vec![10, 0, 0, 0, 2, *m]; b.extend(&tail); b });
+                    cases_b.push({ let mut b = vec![3, 0, 1, b'a', *m]; b.extend(&tail); b });
+                    cases_b.push({ let mut b = vec![3, 0, 1, b'a', 5, 0, 1, b'b', *m]; b.extend(&tail); b });
+                    cases_b.push({ let mut b = vec![8, 0, 0, 0, 2, 0, 1, b'a', *m]; b.extend(&tail); b });
+                    cases_b.push({ let mut b = vec![3, 0, 1, b'o', 3, 0, 1, b'i', *m]; b.extend(&tail); b });
+                    for b in cases_b.iter() {
+                        t.emit(&dec_event("bad", b, &[]));
+                        cases += 1;
+                    }
+                }
+                // a conformant encoding LONGER than an RTMP message (the AMF0 codec has no such limit): compared in Rust
+                {
+                    let n = 258usize;
+                    let mut bytes: Vec<u8> = Vec::with_capacity(n * 65538 + 16);
+                    for i in 0..n { bytes.extend_from_slice(&[2, 0xFF, 0xFF]); bytes.extend(vec![b'a' + (i % 26) as u8; 65535]); }
+                    bytes.extend_from_slice(&[1, 1]);
+                    let mut cur = Cursor::new(&bytes[..]);
+                    let (res, count, ok) = match catch_unwind(AssertUnwindSafe(|| deserialize(&mut cur))) {
+                        Ok(Ok(v)) => { let ok = v.len() == n + 1 && v.iter().take(n).enumerate().all(|(i, x)| matches!(x, Amf0Value::Utf8String(s) if s.len() == 65535 && s.as_bytes()[0] == b'a' + (i % 26) as u8)) && v[n] == Amf0Value::Boolean(true); ("ok".to_string(), v.len(), ok) }
+                        Ok(Err(e)) => (format!("err:{:?}", e), 0, false),
+                        Err(p) => (format!("panic:{}", panic_msg(p)), 0, false),
+                    };
+                    t.emit(&json!({"ev":"DecBig","len":bytes.len(),"n":n + 1,"res":res,"count":count,"same":ok}));
+                    cases += 1;
                 }
                 for n in [255usize, 256, 257, 1024, 1025].iter() {
                     let intent = vec![RV::Arr((0..*n).map(|i| RV::Bool(i % 2 == 0, if i % 2 == 0 { 1 } else { 0 })).collect()), RV::Null];
